@@ -44,7 +44,7 @@ def work(item):
 
 def run(ctx):
     global ENG
-    maxL = 3 if ctx.tier == 'quick' else 5
+    maxL = 4 if ctx.tier == 'quick' else 5
     ctx.bounds = {'L': 'strings of 0..%d arbitrary Unicode scalar values (each char a 32-bit solver variable constrained to scalar values)' % maxL,
                   'backends': list(BACKENDS)}
     ctx.assumptions += ['std models: str::replace::<char>, str::replace::<&str>, String Deref, fmt (see models_used)',
